@@ -15,9 +15,10 @@ import (
 // pipeline — a step that returns an error or a non-zero result (the revision reconciler's "revision
 // still unknown, come back in 10s") stops the steps after it, and the controller hands that result
 // back. Two obligations on every controller Reconcile that runs such a list:
-//   (a) the next step is reached only under err == nil and res.IsZero() of the previous step;
-//   (b) the ctrl.Result the controller returns after the list can be the step's result (it is not a
-//       shadowed or reset value).
+//
+//	(a) the next step is reached only under err == nil and res.IsZero() of the previous step;
+//	(b) the ctrl.Result the controller returns after the list can be the step's result (it is not a
+//	    shadowed or reset value).
 func subReconcilerGateRule(c *Ctx) {
 	p := c.P
 	n := 0
